@@ -21,7 +21,7 @@ Proof. exact split_iri_app. Qed.
 Print Assumptions C14_split_iri_lossless.
 
 From PJ.Model Require Import Spec Decoder.
-From PJ.Proofs Require Import EncStream EncNamespace DecoderSound DecoderProofs.
+From PJ.Proofs Require Import EncTerm EncStmt EncStream EncNamespace DecoderSound DecoderProofs.
 
 (* Every (prefix, IRI) bound on the sink is denoted by the written stream as a Prefix event with the
    same name and the same IRI, in binding order, before the statements -- and the statements are
